@@ -810,17 +810,34 @@ func buildFieldType(ww *conversionVisitor, node sourcewalk.FieldNode) (*descript
 
 		ww.setJ5Ext(node.Source, desc.Options, "string", st.String_.Ext)
 
-		if st.String_.Rules != nil {
-			rules := &validate.FieldConstraints{
-				Type: &validate.FieldConstraints_String_{
-					String_: &validate.StringRules{
-						MinLen:  st.String_.Rules.MinLength,
-						MaxLen:  st.String_.Rules.MaxLength,
-						Pattern: st.String_.Rules.Pattern,
-					},
-				},
+		if st.String_.Rules != nil || st.String_.Format != nil {
+			stringRules := &validate.StringRules{}
+			if st.String_.Rules != nil {
+				stringRules.MinLen = st.String_.Rules.MinLength
+				stringRules.MaxLen = st.String_.Rules.MaxLength
+				stringRules.Pattern = st.String_.Rules.Pattern
 			}
-			proto.SetExtension(desc.Options, validate.E_Field, rules)
+			// The formats which have a validation rule are carried by that
+			// rule, which is also how the reader finds them again.
+			switch st.String_.GetFormat() {
+			case "email":
+				stringRules.WellKnown = &validate.StringRules_Email{Email: true}
+			case "hostname":
+				stringRules.WellKnown = &validate.StringRules_Hostname{Hostname: true}
+			case "ipv4":
+				stringRules.WellKnown = &validate.StringRules_Ipv4{Ipv4: true}
+			case "ipv6":
+				stringRules.WellKnown = &validate.StringRules_Ipv6{Ipv6: true}
+			case "uri":
+				stringRules.WellKnown = &validate.StringRules_Uri{Uri: true}
+			}
+			if st.String_.Rules != nil || stringRules.WellKnown != nil {
+				proto.SetExtension(desc.Options, validate.E_Field, &validate.FieldConstraints{
+					Type: &validate.FieldConstraints_String_{
+						String_: stringRules,
+					},
+				})
+			}
 		}
 
 		if st.String_.ListRules != nil {
